@@ -1,32 +1,49 @@
 """C07 change journal.  Journal.tla (journal entries with old values and provisional versions, revision stack,
-backward undo) is model-checked by TLC: undoing down to any live revision yields the copy saved at its Snapshot, never
-panics, undoing everything yields the committed parent state.  Every behaviour of the bounded configurations (one
-block of setter / Snapshot / Revert calls on top of an empty or a populated committed state) is performed on a real
-account.Manager over a real ChainDatabase; the full getter projection logged after every step is validated by TLC
-against TraceJournal.tla (post-revert projection == projection logged at the Snapshot)."""
-import concurrent.futures, time
+backward undo, Finalise with roots and root logs, Save) is model-checked by TLC: undoing down to any live revision yields
+the copy saved at its Snapshot, never panics, undoing everything yields the committed parent state, the sealed block is the
+block of a run that executed only the surviving writes.  Every behaviour of the bounded configurations (one block of
+setter / Snapshot / Revert calls on top of an empty or a populated committed state, then Seal) is performed on a real
+account.Manager over a real ChainDatabase; the full getter projection logged after every step - and, at Seal, the published
+logs, the replayed, the re-read and the reverts-free block - is validated by TLC against TraceJournal.tla.
+JournalMiner.tla is the miner side: every candidate list x block gas limit of the model is walked by the real
+TxProcessor.ApplyTxs of a real node and compared (TraceJournalMiner.tla) with a miner that was offered the packaged
+transactions only."""
+import concurrent.futures, glob, json, os, time
 import vlib
 LEVEL = "model_checking"
 
 MANIFEST = dict(
     level="model_checking",
-    text="TLC checks on every reachable state of five bounded configurations of the journal model (contract account: balance/storage/"
+    text="TLC checks on every reachable state of seven bounded configurations of the journal model (contract account: balance/storage/"
          "code/self-destruct/events; asset-holding contract; asset issuer; candidate/votes/signers; two interleaved accounts; "
-         "snapshots nested to depth 2-3, empty and populated parent state) that undoing the journal down to ANY live revision "
-         "reproduces the copy saved at its Snapshot, that revert never fails and that undoing everything gives the parent state; "
-         "all those behaviours plus random long behaviours of the full 2-account/17-setter model are executed on a real "
-         "account.Manager (real database, real tries) and the complete getter projection after every step is validated by "
-         "TLC: post-revert projection = projection at the Snapshot, journal length cut back, no panic; after sealing, "
-         "RebuildAll of the published logs on the parent state must give the executed state.",
-    note="Five genuine defects of /repo are carried as named deviations (known_findings.txt), each accepted only with exactly "
+         "snapshots nested to depth 2-3; creations of every kind of entry that get reverted and are followed by further writes; "
+         "empty and populated parent state) that undoing the journal down to ANY live revision reproduces the copy saved at its "
+         "Snapshot, that revert never fails, that undoing everything gives the parent state and that the sealed block (state, roots, "
+         "published logs, root logs) is the block of a run that executed only the surviving writes; all those behaviours plus random "
+         "long behaviours of the full 2-account/17-setter model are executed on a real account.Manager (real database, real tries) "
+         "and the complete getter projection after every step is validated by TLC: post-revert projection = projection at the "
+         "Snapshot, journal length cut back, no panic; after sealing: RebuildAll of the published logs on the parent state gives the "
+         "executed state with all roots, the block equals (getters, roots, published logs with versions and hashes) the block a "
+         "second manager builds from the surviving setter calls alone, Save succeeds and a fresh manager on the saved block reads "
+         "the executed state.  Miner side: for every list of up to 2 (thorough: 3) of 15 candidate classes (valid transfers, asset "
+         "creation, bad signature, unpayable gas, transfer failing after the gas purchase, boxes that succeed, whose later "
+         "sub-transaction is invalid / over-spends / exceeds the remaining block gas, boxes whose first sub-transaction creates an "
+         "asset, a storage slot, an asset id + equity, a profile key) under 5 block gas limits the real TxProcessor.ApplyTxs of a "
+         "real node must classify the candidates as the model does and leave exactly the journal, state, published logs, roots and "
+         "block hash of a miner that was offered the packaged transactions only.",
+    note="Genuine defects of /repo are carried as named deviations (known_findings.txt), each accepted only with exactly "
          "the outcome the deviation model predicts and each with a design-side negative control. Projection treats an "
-         "absent entry and an empty-string entry alike (profile keys, asset-id metadata) and the zero and the empty-code hash alike.",
-    technique="TLA+ model checking (Journal.tla) + replay of the TLC state graphs and simulations on the real account.Manager + "
-              "TLC trace validation (TraceJournal.tla)")
+         "absent entry and an empty-string entry alike (profile keys, asset-id metadata) and the zero and the empty-code hash alike; "
+         "the roots do tell them apart.",
+    technique="TLA+ model checking (Journal.tla, JournalMiner.tla) + replay of the TLC state graphs and simulations on the real "
+              "account.Manager / TxProcessor + TLC trace validation (TraceJournal.tla, TraceJournalMiner.tla)")
 
 DEVS = ["Dev_RevertVersionGapPanics", "Dev_UndoFirstEquityPanics", "Dev_UndoCodeDropsPreviousCode",
         "Dev_UndoSuicideShallow", "Dev_UndoEventNoop", "Dev_MergeAcrossSuicide", "Dev_WorthlessSuicideDropped",
         "Dev_EmptyWriteLeavesEmptyRoot", "Dev_SaveFailsOnDirtyEmptyCode", "Dev_UndoAssetProfileKeyLeavesEmptyEntry"]
+
+# miner side: what kind of discard a dropped candidate class exercises
+PRE, POST, BOXES = {"badsig", "poor"}, {"over"}, {"boxpay", "boxbad", "boxover", "boxasset", "boxstore", "boxissue", "boxfreeze"}
 
 
 def setcfg(ctx, cfg, out, **kv):
@@ -37,9 +54,42 @@ def setcfg(ctx, cfg, out, **kv):
     return out
 
 
+def validate(ctx, module, slot, cfg, files, **kw):
+    """ctx.validate under a per-slot copy of the trace module: validations running side by side get their own work dirs."""
+    m = "%s_%s" % (module, slot)
+    txt = open("%s/%s.tla" % (ctx.specdir, module)).read().replace("---- MODULE %s ----" % module, "---- MODULE %s ----" % m)
+    open("%s/%s.tla" % (ctx.specdir, m), "w").write(txt)
+    return ctx.validate(m, cfg, files, **kw)
+
+
+def miner_coverage(files):
+    """Which discard paths the real miner took (counted from the traces; evidence only, the verdict is TLC's)."""
+    c = dict(lists=0, packaged=0, invalid_before_any_write=0, invalid_after_gas_purchase=0, box_invalid_after_sub_transactions=0,
+             box_left_block_full=0, plain_left_block_full=0)
+    for f in files:
+        for ln in open(f):
+            e = json.loads(ln)
+            if e.get("ev") != "Mine":
+                continue
+            c["lists"] += 1
+            c["packaged"] += len(e["sel"])
+            for x in e["inv"]:
+                if x in PRE:
+                    c["invalid_before_any_write"] += 1
+                elif x in POST:
+                    c["invalid_after_gas_purchase"] += 1
+                elif x in BOXES:
+                    c["box_invalid_after_sub_transactions"] += 1
+            # neither packaged nor invalid: left for a later block (block gas limit reached, or the walk had ended)
+            for x in e["a"][0]:
+                if x not in e["sel"] and x not in e["inv"]:
+                    c["box_left_block_full" if x in BOXES else "plain_left_block_full"] += 1
+    return c
+
+
 def run(ctx):
-    # up to 16 small TLC runs side by side: keep the JVMs small (the biggest trace validation needs < 2 GB)
-    __import__("os").environ.setdefault("VERIF_TLC_HEAP", "3g")
+    # up to 20 small TLC runs side by side: keep the JVMs small (the biggest trace validation needs < 2 GB)
+    os.environ.setdefault("VERIF_TLC_HEAP", "3g")
     ctx.build()
     quick = ctx.quick()
     depth = dict(Contract=4, Hold=4, Asset=4, Cand=3, Two=4, Nest=8, Create=6) if quick else \
@@ -47,13 +97,14 @@ def run(ctx):
     # Create: [write]; Snapshot; 1-2 creating / modifying writes; Revert; [write]; Seal - one outer write in the quick tier, two in thorough
     shape = {} if quick else {"MaxOuter = 1": "MaxOuter = 2"}
     limit = 0
-    pool = concurrent.futures.ThreadPoolExecutor(16)    # >= number of TLC runs: all start at their own offset
+    pool = concurrent.futures.ThreadPoolExecutor(32)    # >= number of TLC runs: all start at their own offset
 
     # ---- design side: the clauses hold on the design (all deviations off) ...
     def design(i_g):
         i, g = i_g
         time.sleep(0.1 * i)     # distinct TLC metadirs (named by millisecond)
-        cfg = setcfg(ctx, "MCJournal_%s.cfg" % g, "MCJournal_%s.run.cfg" % g, **dict({"MaxSteps = 6": "MaxSteps = %d" % depth[g]}, **(shape if g == "Create" else {})))
+        cfg = setcfg(ctx, "MCJournal_%s.cfg" % g, "MCJournal_%s.run.cfg" % g,
+                     **dict({"MaxSteps = 6": "MaxSteps = %d" % depth[g]}, **(shape if g == "Create" else {})))
         dot = ctx.path("dot", g + ".dot")
         ctx.tlc_exhaustive("MCJournal", cfg, timeout=900, dump=dot, workers=4)
         return g, dot
@@ -64,51 +115,97 @@ def run(ctx):
         time.sleep(0.1 * (i + len(depth)))
         gap = dev == "Dev_RevertVersionGapPanics"
         cfg = setcfg(ctx, "MCJournal_Neg.cfg", "MCJournal_Neg.%s.cfg" % dev,
-                     **{"@DEV@": dev, "@KINDS@": "KindsNegGap" if gap else "KindsNegAsset" if "AssetProfile" in dev else "KindsNeg", "@STEPS@": 7 if gap else 5})
+                     **{"@DEV@": dev, "@KINDS@": "KindsNegGap" if gap else "KindsNegAsset" if "AssetProfile" in dev else "KindsNeg",
+                        "@STEPS@": 7 if gap else 5})
         r = ctx.tlc("MCJournal", cfg, timeout=600, expect_ok=False, workers=2)
         return dev, r["inv"]
 
+    # ---- miner side (runs next to the journal side): design, negative control, every transition on the real processor
+    def miner():
+        time.sleep(0.1 * (len(depth) + len(DEVS) + 1))
+        graphs = [("miner2", "MCJournalMiner.cfg")] + ([] if quick else [("miner3", "MCJournalMiner_3.cfg")])
+        r = ctx.tlc("MCJournalMiner", "MCJournalMiner_Neg.cfg", timeout=600, expect_ok=False, workers=2)
+        if r["inv"] != "NoTraceOfDiscarded":
+            raise vlib.Broken("negative control: a miner that keeps the writes of a box dropped for block gas should violate "
+                              "NoTraceOfDiscarded (got %s)" % r["inv"])
+        ctx.extra.setdefault("negative_controls_model_violates", {})["Dev_NoRevertWhenBlockFull"] = r["inv"]
+        edges = ok = 0
+        allfiles = []
+        for name, cfg in graphs:
+            dot = ctx.path("dot", name + ".dot")
+            ctx.tlc_exhaustive("MCJournalMiner", cfg, timeout=600, dump=dot, workers=2)
+            files, summ = ctx.replay("journalminer", graph=dot, shards=4 if quick else 8, maxlen=3, name="journal" + name)
+            edges += summ["graph_edges"]
+            allfiles += files
+            ctx.cov["samples"] += summ["samples"][:1]
+
+            def val(i_f):
+                time.sleep(0.15 * i_f[0])
+                return validate(ctx, "TraceJournalMiner", "%s_%d" % (name, i_f[0]), "TraceJournalMiner.cfg", [i_f[1]], timeout=1800,
+                                    what="%s shard %d: real ApplyTxs against the miner offered the packaged list only" % (name, i_f[0]))
+            if all(list(pool.map(val, list(enumerate(files))))):
+                ok += summ["graph_edges"]
+        cov = miner_coverage(allfiles)
+        ctx.extra["miner_transitions_in_graphs"] = edges
+        ctx.extra["miner_transitions_replayed"] = ok
+        ctx.extra["miner_discard_paths_taken"] = cov
+        ctx.log("miner discard paths taken by the real ApplyTxs: %s" % cov)
+        if not ctx.violations and min(cov.values()) == 0:
+            raise vlib.Broken("miner side is vacuous: a discard path was never taken: %s" % cov)
+
+    fm = pool.submit(miner)
     fd = [pool.submit(design, x) for x in enumerate(depth)]
     fn = [pool.submit(neg, x) for x in enumerate(DEVS)]
     graphs = dict(f.result() for f in fd)
     negs = dict(f.result() for f in fn)
-    ctx.extra["negative_controls_model_violates"] = negs
+    ctx.extra.setdefault("negative_controls_model_violates", {}).update(negs)
     for dev, inv in negs.items():
         if not inv:
             raise vlib.Broken("negative control: the model with %s on should violate a clause" % dev)
     ctx.log("negative controls: %s" % negs)
+
+    # ---- long random behaviours of the full model (2 accounts, all 17 setter kinds, nesting 3, any values, Seal); started
+    # now, they run next to the replay of the state graphs
+    # (every replay shard loads all simulation files of its batch, ~4 KB per state: keep batches small)
+    num, dep, batches = (500, 20, 1) if quick else (5000, 26, 2)
+
+    def sims():
+        for b in range(batches):
+            sim = ctx.tlc_simulate("MCJournal", "MCJournal_All.cfg", num, dep, "all%d" % b, timeout=900, seed=ctx.seed * 10 + b)
+            files, summ = ctx.replay("journal", sim=sim, shards=8, name="journal-sim%d" % b)
+            validate(ctx, "TraceJournal", "sim%d" % b, "TraceJournal.cfg", files, what="simulated behaviours of the full model", timeout=3000)
+            for f in glob.glob(sim):
+                os.remove(f)
+    fs = pool.submit(sims)
 
     # ---- spec -> code -> spec: every edge of every state graph on the real manager
     def rep(g):
         return g, ctx.replay("journal", graph=graphs[g], shards=6 if quick else 12, maxlen=14, limit=limit, name="journal-" + g)
     reps = dict(pool.map(rep, list(graphs))) if quick else dict(rep(g) for g in graphs)
     edges = replayed = 0
-    allfiles = []
+
+    def val(i_g):
+        i, g = i_g
+        time.sleep(0.15 * i)
+        files, summ = reps[g]
+        return g, validate(ctx, "TraceJournal", g, "TraceJournal.cfg", files, what="state graph %s" % g, timeout=3000)
+    verdicts = dict(pool.map(val, list(enumerate(reps)))) if quick else dict(val(x) for x in enumerate(reps))
     for g, (files, summ) in reps.items():
         edges += summ["graph_edges"]
-        if quick:
-            allfiles += files
-        elif ctx.validate("TraceJournal", "TraceJournal.cfg", files, what="state graph %s" % g, timeout=3000):
+        if verdicts[g]:
             replayed += summ["graph_edges"]
-        if len(ctx.cov["samples"]) < 3:
+        if len(ctx.cov["samples"]) < 4:
             ctx.cov["samples"] += summ["samples"][:1]
-    if quick and ctx.validate("TraceJournal", "TraceJournal.cfg", allfiles, what="state graphs %s" % " ".join(graphs), timeout=1800):
-        replayed = edges
     ctx.extra["transitions_in_graphs"] = edges
     ctx.extra["distinct_transitions_replayed"] = replayed
     ctx.extra["graph_depths"] = depth
     ctx.cov["exhaustive"] = True
-    # ---- long random behaviours of the full model (2 accounts, all 17 setter kinds, nesting 3, any values, Seal)
-    # (every replay shard loads all simulation files of its batch, ~4 KB per state: keep batches small)
-    num, dep, batches = (500, 20, 1) if quick else (5000, 26, 2)
-    for b in range(batches):
-        sim = ctx.tlc_simulate("MCJournal", "MCJournal_All.cfg", num, dep, "all%d" % b, timeout=900, seed=ctx.seed * 10 + b)
-        files, summ = ctx.replay("journal", sim=sim, shards=8, name="journal-sim%d" % b)
-        ctx.validate("TraceJournal", "TraceJournal.cfg", files, what="simulated behaviours of the full model", timeout=3000)
-        for f in __import__("glob").glob(sim):
-            __import__("os").remove(f)
+    fs.result()
+    fm.result()
     ctx.assumptions += [
         "universe: a contract account c and a user account u; 2 storage slots, 1 asset code, 1 asset id, 1 equity id, 2 profile keys; values from 3-element domains",
         "sequences are those transactions can issue: self-destruct only on a live account (opSuicide), an asset code is created once, supply/profile only of an existing asset, asset codes/candidate/votes/signers only on the user account",
-        "an absent entry and an entry holding the empty string are the same observable (the getters of the profile maps cannot tell them apart; asset-id metadata likewise after Finalise); the zero hash and keccak('') both mean 'no code' (isEmptyHash)",
-        "one block per behaviour on top of a committed parent state (empty or populated through a real Finalise/Save); redo = Manager.RebuildAll of the block's published logs followed by Finalise"]
+        "an absent entry and an entry holding the empty string are the same observable for the getters (the getters of the profile maps cannot tell them apart; asset-id metadata likewise after Finalise); the zero hash and keccak('') both mean 'no code' (isEmptyHash); the four roots are compared exactly",
+        "one block per behaviour on top of a committed parent state (empty or populated through a real Finalise/Save); redo = Manager.RebuildAll of the block's published logs on a fresh manager followed by Finalise; the reverts-free run = the surviving setter calls on a second fresh manager (the trace spec checks that list against its own journal)",
+        "the sealed block is stored without a parent link (nothing is stable in the shared test database), so the re-read through a fresh manager covers the accounts Manager.Save wrote (those with published logs)",
+        "miner side: one block on a stable setup block (funded accounts, contract K, one asset); every transaction's gas limit equals its calibrated gas use; block gas limits 50000, 70000, 100000, 130000, 10^8; a box holds two sub-transactions; the packaging time limit is never reached"]
